@@ -732,6 +732,15 @@ func TestReplay(t *testing.T) {
 	if err != nil {
 		t.Fatal(err)
 	}
+	if r.Test == tContend {
+		var cc ContendCase
+		if err := json.Unmarshal(r.Case, &cc); err != nil {
+			t.Fatal(err)
+		}
+		cc.Rounds *= 20
+		checkContend(t, cc)
+		return
+	}
 	var c Case
 	if err := json.Unmarshal(r.Case, &c); err != nil {
 		t.Fatal(err)
